@@ -1,10 +1,22 @@
 /-
   Proofs/DMSem.lean — lemmas about the density-matrix model (C17, C06).
 
+  Part 2 (Mathlib algebra): ℚ[i] is a commutative ring, `tr(ab) = tr(ba)`, hence `fidelity` is symmetric; the pure branch.
+
   Part 1 (core Lean only): the string construction of `partial_trace` fed to the mini-`einsum` yields the textbook
   reduced state, for every list of dimensions (≤ 26 spaces, the limit of `string.ascii_lowercase`) and every subset.
 -/
+import Mathlib.Tactic.Ring
+import Mathlib.Tactic.Linarith
+import Mathlib.Algebra.Order.Field.Rat
+import Mathlib.Algebra.BigOperators.Group.Finset.Basic
+import Mathlib.Algebra.BigOperators.Ring.Finset
+import Mathlib.Algebra.BigOperators.Group.Finset.Sigma
+import Mathlib.Data.Rat.Cast.Order
+import Mathlib.Algebra.BigOperators.Fin
+import Mathlib.Data.Real.Basic
 import GraphiqModel.Model.DMSem
+import GraphiqModel.Proofs.Commuting
 namespace Graphiq.DM
 open List
 
@@ -323,3 +335,202 @@ theorem partialTrace_returns_iff (ρ : Mat) (keep dims : List Nat) :
     exact ⟨_, rfl⟩
 
 end Graphiq.DM
+
+/-! ## Part 2: algebra of the exact matrices -/
+namespace Graphiq
+open DM
+
+namespace GQ
+@[ext] theorem ext' {a b : GQ} (h1 : a.re = b.re) (h2 : a.im = b.im) : a = b := by
+  cases a; cases b; simp_all
+
+@[simp] theorem add_re (a b : GQ) : (a + b).re = a.re + b.re := rfl
+@[simp] theorem add_im (a b : GQ) : (a + b).im = a.im + b.im := rfl
+@[simp] theorem mul_re (a b : GQ) : (a * b).re = a.re * b.re - a.im * b.im := rfl
+@[simp] theorem mul_im (a b : GQ) : (a * b).im = a.re * b.im + a.im * b.re := rfl
+@[simp] theorem zero_re : (0 : GQ).re = 0 := rfl
+@[simp] theorem zero_im : (0 : GQ).im = 0 := rfl
+@[simp] theorem one_re : (1 : GQ).re = 1 := rfl
+@[simp] theorem one_im : (1 : GQ).im = 0 := rfl
+@[simp] theorem neg_re (a : GQ) : (-a).re = -a.re := rfl
+@[simp] theorem neg_im (a : GQ) : (-a).im = -a.im := rfl
+@[simp] theorem sub_re (a b : GQ) : (a - b).re = a.re - b.re := rfl
+@[simp] theorem sub_im (a b : GQ) : (a - b).im = a.im - b.im := rfl
+
+instance : CommRing GQ where
+  add := (· + ·)
+  mul := (· * ·)
+  zero := 0
+  one := 1
+  neg := Neg.neg
+  sub := (· - ·)
+  add_assoc a b c := by ext <;> simp <;> ring
+  zero_add a := by ext <;> simp
+  add_zero a := by ext <;> simp
+  add_comm a b := by ext <;> simp <;> ring
+  mul_assoc a b c := by ext <;> simp <;> ring
+  one_mul a := by ext <;> simp
+  mul_one a := by ext <;> simp
+  left_distrib a b c := by ext <;> simp <;> ring
+  right_distrib a b c := by ext <;> simp <;> ring
+  mul_comm a b := by ext <;> simp <;> ring
+  zero_mul a := by ext <;> simp
+  mul_zero a := by ext <;> simp
+  neg_add_cancel a := by ext <;> simp
+  sub_eq_add_neg a b := by ext <;> simp <;> ring
+  nsmul := nsmulRec
+  zsmul := zsmulRec
+end GQ
+
+theorem gsum_eq_sum (n : Nat) (f : Nat → GQ) : gsum n f = ∑ i ∈ Finset.range n, f i := by
+  induction n with
+  | zero => simp [gsum]
+  | succ k ih => rw [gsum, ih, Finset.sum_range_succ]
+
+theorem isZero_iff (a : GQ) : a.isZero = true ↔ a = 0 := by
+  constructor
+  · intro h; simp [GQ.isZero] at h; ext <;> simp [h.1, h.2]
+  · intro h; subst h; rfl
+
+theorem dot_eq_gsum (n : Nat) (f g : Nat → GQ) : Mat.dot n f g = gsum n fun k => f k * g k := by
+  induction n with
+  | zero => rfl
+  | succ k ih =>
+    rw [Mat.dot, gsum, ih]
+    split
+    · rename_i h; rw [(isZero_iff _).1 h]; simp
+    · rfl
+
+theorem trace_mul_comm (a b : Mat) (h : a.n = b.n) : (a.mul b).trace = (b.mul a).trace := by
+  unfold Mat.trace Mat.mul
+  simp only [dot_eq_gsum, gsum_eq_sum, h]
+  rw [Finset.sum_comm]
+  apply Finset.sum_congr rfl; intro i _
+  apply Finset.sum_congr rfl; intro j _
+  ring
+
+namespace DM
+
+/-- **`fidelity` is symmetric** on every branch (same exception class, same branch, same value) -/
+theorem fidelity_symm (ρ σ : Mat) (h : ρ.n = σ.n) : fidelity ρ σ = fidelity σ ρ := by
+  unfold fidelity
+  rw [trace_mul_comm ρ σ h, Bool.or_comm (isPure ρ)]
+  cases isDensityMatrix ρ <;> cases isDensityMatrix σ <;> simp
+
+theorem clip01_range (x : Rat) : 0 ≤ clip01 x ∧ clip01 x ≤ 1 := by
+  unfold clip01
+  split
+  · exact ⟨le_refl 0, by norm_num⟩
+  · split
+    · exact ⟨by norm_num, le_refl 1⟩
+    · constructor <;> linarith
+
+theorem clip01_id (x : Rat) (h0 : 0 ≤ x) (h1 : x ≤ 1) : clip01 x = x := by
+  unfold clip01
+  rw [if_neg (by linarith), if_neg (by linarith)]
+
+/-- the pure-state branch: when both arguments pass `is_density_matrix` and one passes `is_pure`, the result is the
+    overlap `Re tr(ρσ)` clipped to `[0,1]` -/
+theorem fidelity_pure_branch (ρ σ : Mat) (hρ : isDensityMatrix ρ = true) (hσ : isDensityMatrix σ = true)
+    (hp : isPure ρ = true ∨ isPure σ = true) : fidelity ρ σ = .ok (.val (clip01 (ρ.mul σ).trace.re)) := by
+  unfold fidelity
+  have : (isPure ρ || isPure σ) = true := by rcases hp with h | h <;> simp [h]
+  simp [hρ, hσ, this]
+
+/-- every value `fidelity` returns lies in `[0,1]` -/
+theorem fidelity_range (ρ σ : Mat) (f : Rat) (h : fidelity ρ σ = .ok (.val f)) : 0 ≤ f ∧ f ≤ 1 := by
+  unfold fidelity at h
+  split at h; · cases h
+  split at h; · cases h
+  split at h
+  · injection h with h; injection h with h; subst h; exact clip01_range _
+  · cases h
+
+
+/-! ### Infidelity across representations; D9 witness -/
+
+def ket0dm : Mat := Mat.ofRows 2 #[#[1, 0], #[0, 0]]
+
+theorem d9_witness :
+    infidelity stabOverlap (.dm ket0dm) (.s (Tab.ket1 1)) = .ok (.val 0) ∧
+    infidelity stabOverlap (.s (Tab.ket0 1)) (.s (Tab.ket1 1)) = .ok (.val 1) ∧
+    infidelity stabOverlap (.dm ket0dm) (.dm (stabilizerDensity (Tab.ket1 1))) = .ok (.val 1) := by
+  decide +kernel
+
+theorem smul_one (a : GQ) : GQ.smul 1 a = a := by
+  ext <;> simp [GQ.smul]
+
+theorem stabilizerToDensityPure_eq (t : Tab) (h : ∀ k, k < t.n → (t.row (k + t.n)).r = false) :
+    stabilizerToDensityPure t = stabilizerDensity t := by
+  unfold stabilizerToDensityPure stabilizerDensity
+  apply List.foldl_ext
+  intro ρ k hk
+  have hk' : k < t.n := List.mem_range.1 hk
+  simp only [h k hk', Bool.false_eq_true, if_false]
+  have : Mat.smul 1 (pauliMat t.n (t.row (k + t.n))).norm = (pauliMat t.n (t.row (k + t.n))).norm := by
+    unfold Mat.smul
+    simp only [smul_one]
+  rw [this]
+
+theorem infidelity_rep_independent (tt ts : Tab)
+    (hsign : ∀ k, k < ts.n → (ts.row (k + ts.n)).r = false)
+    (hdt : isDensityMatrix (stabilizerDensity tt) = true) (hds : isDensityMatrix (stabilizerDensity ts) = true)
+    (hp : isPure (stabilizerDensity tt) = true)
+    (hov : 0 ≤ stabOverlap tt ts ∧ stabOverlap tt ts ≤ 1) :
+    infidelity stabOverlap (.dm (stabilizerDensity tt)) (.dm (stabilizerDensity ts)) = infidelity stabOverlap (.s tt) (.s ts) ∧
+    infidelity stabOverlap (.dm (stabilizerDensity tt)) (.s ts) = infidelity stabOverlap (.s tt) (.s ts) := by
+  have e := stabilizerToDensityPure_eq ts hsign
+  have f := fidelity_pure_branch _ _ hdt hds (Or.inl hp)
+  have c : clip01 ((stabilizerDensity tt).mul (stabilizerDensity ts)).trace.re = stabOverlap tt ts :=
+    clip01_id _ hov.1 hov.2
+  constructor
+  · simp only [infidelity, f, Except.map, c]
+  · simp only [infidelity, e, f, Except.map, c]
+
+/-! ### the rational closed forms of commuting pairs are the real-valued `F`, `T` of Proofs/Commuting.lean -/
+
+theorem foldl_add_sum (l : List Rat) (a : Rat) : l.foldl (· + ·) a = a + l.sum := by
+  induction l generalizing a with
+  | nil => simp
+  | cons x xs ih => simp only [List.foldl_cons, List.sum_cons, ih]; ring
+
+theorem qsumL_eq_sum (l : List Rat) : qsumL l = l.sum := by
+  unfold qsumL; rw [foldl_add_sum]; ring
+
+theorem rat_abs_eq (q : Rat) : q.abs = |q| := by
+  unfold Rat.abs
+  split
+  · rename_i h; exact (abs_of_nonneg h).symm
+  · rename_i h; exact (abs_of_neg (not_le.1 h)).symm
+
+theorem zipWith_ofFn {α β γ : Type} (f : α → β → γ) (d : Nat) (a : Fin d → α) (b : Fin d → β) :
+    List.zipWith f (List.ofFn a) (List.ofFn b) = List.ofFn fun i => f (a i) (b i) := by
+  apply List.ext_getElem
+  · simp
+  · intro i h1 h2; simp
+
+/-- the model's closed form is the real-valued fidelity of the commuting pair with eigenvalues `a_i²`, `b_i²` -/
+theorem commFidelity_cast (d : Nat) (a b : Fin d → Rat) (ha : ∀ i, 0 ≤ a i) (hb : ∀ i, 0 ≤ b i) :
+    ((commFidelity (List.ofFn a) (List.ofFn b) : Rat) : ℝ) =
+      Commuting.F (fun i => ((a i : Rat) : ℝ) ^ 2) (fun i => ((b i : Rat) : ℝ) ^ 2) := by
+  unfold commFidelity Commuting.F Commuting.bc
+  simp only [zipWith_ofFn, qsumL_eq_sum, List.sum_ofFn]
+  push_cast
+  have : ∀ i, Real.sqrt (((a i : Rat) : ℝ) ^ 2 * ((b i : Rat) : ℝ) ^ 2) = (a i : ℝ) * (b i : ℝ) := by
+    intro i
+    have h1 : (0 : ℝ) ≤ (a i : ℝ) := by exact_mod_cast ha i
+    have h2 : (0 : ℝ) ≤ (b i : ℝ) := by exact_mod_cast hb i
+    rw [← mul_pow, Real.sqrt_sq (mul_nonneg h1 h2)]
+  simp only [this]
+  ring
+
+theorem commTraceDist_cast (d : Nat) (p q : Fin d → Rat) :
+    ((commTraceDist (List.ofFn p) (List.ofFn q) : Rat) : ℝ) =
+      Commuting.T (fun i => ((p i : Rat) : ℝ)) (fun i => ((q i : Rat) : ℝ)) := by
+  unfold commTraceDist Commuting.T
+  simp only [zipWith_ofFn, qsumL_eq_sum, List.sum_ofFn, rat_abs_eq]
+  push_cast
+  rfl
+
+end DM
+end Graphiq
